@@ -109,6 +109,14 @@ type c08Gen struct {
 	FwdStart time.Time // upstream gens: when the stub upstream was entered
 	D, OD    time.Time // Deadline / OriginalDeadline as stored
 	known    bool
+	adopted  bool // was observed as the published entry of its key at some point
+}
+
+func c08Mark(g *c08Gen) *c08Gen {
+	if g != nil {
+		g.adopted = true
+	}
+	return g
 }
 
 var c08Reg struct {
@@ -610,7 +618,7 @@ func (h *c08Hist) insert(cc *c08Ctrl, name string, qtype uint16, sc c08Scope, tt
 		h.env.m.Count("insert_left_deadlineNano_zero", 1) // evidence only; the verdicts come from lookups
 	}
 	h.tr("  stored D=insert+[%.1f,%.1f]ms", ms(g.D.Sub(g.T1)), ms(g.D.Sub(g.T0)))
-	cc.slots[k] = &c08Slot{gen: g, since: g.T1}
+	cc.slots[k] = &c08Slot{gen: c08Mark(g), since: g.T1}
 	return g
 }
 
@@ -868,17 +876,24 @@ func (h *c08Hist) judge(o *c08Obs) {
 	}
 	m.Count("scope_match_checked", 1)
 	if slot == nil {
-		slot = &c08Slot{gen: g, since: o.t1}
+		slot = &c08Slot{gen: c08Mark(g), since: o.t1}
 		cc.slots[o.key] = slot
 	}
 	if slot.gen == nil || g.Tok > slot.gen.Tok {
 		// a newer generation became visible (asynchronous refresh): adopt it
-		slot.gen, slot.gone, slot.inFlight, slot.failed, slot.since = g, false, false, 0, o.t1
+		slot.gen, slot.gone, slot.inFlight, slot.failed, slot.since = c08Mark(g), false, false, 0, o.t1
 		m.Count("adopted_newer_generation", 1)
 	} else if g.Tok < slot.gen.Tok && !o.t0.After(slot.since) {
 		// the newer generation was published while (or after) this call ran
 		m.Count("older_generation_served_concurrently_with_replace", 1)
 		return
+	} else if g.Tok < slot.gen.Tok && !g.adopted {
+		// Tokens are handed out when the stub upstream is entered, not when the answer is stored: an
+		// asynchronous refresh that asked earlier may store later (last writer wins, and the property
+		// does not forbid it). A generation that was never seen as the published entry before cannot
+		// be called "already replaced"; it is the published entry now.
+		slot.gen, slot.gone, slot.inFlight, slot.failed, slot.since = c08Mark(g), false, false, 0, o.t1
+		m.Count("older_exchange_stored_later_adopted", 1)
 	} else if g.Tok < slot.gen.Tok {
 		h.tr("%s ctrl=%d %s -> served OLD tok=%d (current %d)", o.how, cc.id, o.key, g.Tok, slot.gen.Tok)
 		h.violate("served-replaced-generation", "an answer that had already been replaced by a completed insert was served",
@@ -1006,7 +1021,7 @@ func (h *c08Hist) refresh(cc *c08Ctrl, k c08Key, sc c08Scope, req *udpRequest, q
 			return
 		}
 		if g != nil && g.Tok == ev.Tok {
-			cc.slots[k] = &c08Slot{gen: g, since: time.Now()}
+			cc.slots[k] = &c08Slot{gen: c08Mark(g), since: time.Now()}
 			m.Count("refresh_stored_new_generation", 1)
 			h.tr("  refreshed: tok=%d D=+[%.1f]ms", g.Tok, ms(time.Until(g.D)))
 		} else {
@@ -1037,7 +1052,7 @@ func (h *c08Hist) clone(from *c08Ctrl) *c08Ctrl {
 	h.tr("clone ctrl=%d -> ctrl=%d entries=%d", from.id, to.id, n)
 	h.env.m.Count("reload_clones", 1)
 	for k, s := range from.slots {
-		to.slots[k] = &c08Slot{gen: s.gen, gone: s.gone, lru: s.lru, since: time.Now()}
+		to.slots[k] = &c08Slot{gen: c08Mark(s.gen), gone: s.gone, lru: s.lru, since: time.Now()}
 	}
 	return to
 }
@@ -1210,6 +1225,26 @@ func (h *c08Hist) runTiming() {
 					h.lookup(pri, h.name, keys[1].q, keys[2].sc, 1, mixedLookup)
 				default:
 					h.lookup(pri, h.name, keys[0].q, c08AsIs("203.0.113.9:53"), 1, mixedLookup)
+				}
+			}
+			if r.IntN(3) == 0 {
+				// another upstream than any the answers were obtained from. A routing index names an
+				// upstream only within one configuration; the cache outlives reloads (clone/restore,
+				// shared store) that reorder dns.upstream, so a different upstream can sit at the index
+				// the cached answer's upstream had. Never inserted under this scope: must not be served.
+				for i := 0; i < 3; i++ {
+					if up := keys[i].sc.up; up != nil {
+						other := c08Up(c08UpPool[r.IntN(len(c08UpPool))], []uint16{53, 5353}[r.IntN(2)])
+						other.idx = keys[i].sc.idx
+						if other.label != keys[i].sc.label {
+							h.lookup(pri, h.name, keys[i].q, other, 1, mixedLookup)
+							m.Count("other_upstream_at_same_routing_index_probes", 1)
+							if old != nil {
+								m.Count("other_upstream_at_same_routing_index_probes_after_reload_handover", 1)
+							}
+						}
+						break
+					}
 				}
 			}
 			if old != nil && r.IntN(2) == 0 {
@@ -1616,7 +1651,7 @@ func (h *c08Hist) judgeClient(cc *c08Ctrl, k c08Key, ks string, rep c08Reply, ex
 				h.tr("client ctrl=%d %s -> tok=%d from an upstream exchange inside the bracket (origin ambiguous)", cc.id, k, g.Tok)
 				if got, _ := h.learn(cc, ks); got != nil {
 					if s := cc.slots[k]; s == nil || s.gen == nil || got.Tok > s.gen.Tok {
-						cc.slots[k] = &c08Slot{gen: got, since: time.Now()}
+						cc.slots[k] = &c08Slot{gen: c08Mark(got), since: time.Now()}
 					}
 				}
 				return
@@ -1628,7 +1663,7 @@ func (h *c08Hist) judgeClient(cc *c08Ctrl, k c08Key, ks string, rep c08Reply, ex
 			h.judge(&miss)
 			if got, _ := h.learn(cc, ks); got != nil {
 				if s := cc.slots[k]; s == nil || s.gen == nil || got.Tok > s.gen.Tok {
-					cc.slots[k] = &c08Slot{gen: got, since: time.Now()}
+					cc.slots[k] = &c08Slot{gen: c08Mark(got), since: time.Now()}
 				}
 			} else if s := cc.slots[k]; s == nil || s.gen == nil || g.Tok > s.gen.Tok {
 				cc.slots[k] = &c08Slot{gen: g, gone: true, since: time.Now()}
@@ -1744,6 +1779,14 @@ func (h *c08Hist) runE2E() {
 	}
 	refreshesWhileHeld := h.plan.calls.Load() - callsBefore
 	inflightPeak := h.plan.maxInflight.Load()
+	// "at most one refresh in flight" speaks about the stale window only: on a loaded machine the
+	// burst may start late, and a client that arrives after the window is a plain miss that goes
+	// upstream on its own. The in-flight verdict is taken only when the whole held phase, as
+	// actually executed, lay inside the window of the generation the burst was aimed at.
+	heldInWindow := unlimited || time.Now().Before(a.D.Add(w))
+	if s := cc.slots[k1]; s == nil || s.gen != a {
+		heldInWindow = false
+	}
 	close(gate)
 	<-done
 	h.tr("burst n=%d mode=%d at D+%.0fms atOnce=%v upstreamCalls=%d inflightPeak=%d", n, mode, ms(inWin), atOnce, refreshesWhileHeld, inflightPeak)
@@ -1792,7 +1835,9 @@ func (h *c08Hist) runE2E() {
 		if atOnce {
 			m.Count("e2e_burst_answered_while_refresh_held", 1)
 		}
-		if peak := h.plan.maxInflight.Load(); peak > 1 {
+		if !heldInWindow {
+			m.Count("e2e_gated_burst_ran_outside_stale_window_no_inflight_verdict", 1)
+		} else if peak := inflightPeak; peak > 1 { // sampled while the gate was still closed
 			h.violate("multiple-refresh-in-flight", fmt.Sprintf("%d upstream exchanges for one stale key were in flight at the same time", peak),
 				map[string]any{"key": k1.String(), "clients": n})
 		} else if peak == 1 {
@@ -1800,7 +1845,7 @@ func (h *c08Hist) runE2E() {
 		}
 	}
 	if g, _ := h.learn(cc, ks); g != nil && g.Tok > a.Tok {
-		cc.slots[k1] = &c08Slot{gen: g, since: time.Now()}
+		cc.slots[k1] = &c08Slot{gen: c08Mark(g), since: time.Now()}
 		m.Count("e2e_refresh_stored_new_generation", 1)
 	} else if ev, _ := h.plan.lastEvent(); ev.Err && !ev.Start.Before(a.T0) {
 		if s := cc.slots[k1]; s != nil && s.gen == a {
@@ -1910,7 +1955,7 @@ func TestVerifC08(t *testing.T) {
 			launch("timing", cells[i%len(cells)], (*c08Hist).runTiming, 2500*time.Millisecond)
 		}
 		for i := 0; i < nLRU; i++ {
-			cfg := c08Cfg{Opt: i%2 == 0, Stale: (i / 2) % 3, Max: []int{3, 8}[(i/6)%2], Fixed: "none"}
+			cfg := c08Cfg{Opt: i%2 == 0, Stale: (i / 2) % 3, Max: []int{3, 1, 2, 8, 2, 1, 17}[(i/6)%7], Fixed: "none"}
 			launch("lru", cfg, (*c08Hist).runLRU, 8*time.Second)
 		}
 		for i := 0; i < nE2E; i++ {
